@@ -9,7 +9,7 @@ HOLD_LABELS = ['call', 'wf.enter', 'wf.exit', 'add.enq', 'loop.wake', 'loop.pass
                'rel.enter', 'rel.bcast', 'jclose.marked', 'wuf.locked', 'wuf.wait', 'wuf.woken', 'pause.load', 'resume.check',
                'resume.stored', 'stop.waited', 'stop.chans', 'stop.nodes', 'stopall.removed', 'restart.waited', 'restart.closed',
                'restart.newchans', 'restart.reset', 'start.enter', 'start.node', 'node.init', 'tune.stored', 'tune.popped',
-               'purge.deq', 'job.sp.load', 'job.mc.load', 'jclose.checked', 'disp.cas.load', 'serve.wfdone', 'lifecycle.locked', 'tune.checked', 'reap.expired', 'add.pre', 'wgc.cas', 'resp.stored', 'resp.close', 'mgr.register', 'ad.sub', 'reap.tick', 'reap.snap', 'reap.removed', 'reap.stopped', 'ctx.fired', 'sub.notify', 'free.push', 'free.stop', 'bind.sub']
+               'purge.deq', 'job.sp.load', 'job.mc.load', 'jclose.checked', 'disp.cas.load', 'serve.wfdone', 'lifecycle.locked', 'tune.checked', 'reap.expired', 'add.pre', 'wgc.cas', 'resp.stored', 'resp.close', 'mgr.register', 'ad.sub', 'reap.tick', 'reap.snap', 'reap.removed', 'reap.stopped', 'ctx.fired', 'sub.notify', 'free.push', 'free.stop', 'bind.sub', 'wgc.load']
 
 
 def sched(rng, procs=('disp', 'pg', 'c', 'w', 'ctl', 'x')):
@@ -185,6 +185,30 @@ def fam_ctl(rng, pid):
     if rng.random() < 0.4:
         b.client('insp', inspector(rng))
     return b.prog(cfg)
+
+
+def fam_storm(rng, pid):
+    """many short jobs on a wide pool, most of them failing or panicking, nobody reading Errs(): the sites that only real
+    parallelism reaches (error channel, shared counters, simultaneous completions).  Meant for free-running executions."""
+    b = Builder(rng, 'storm', pid)
+    cfg = base_cfg(rng, conc=rng.choice([4, 6, 8]))
+    cfg['errs_reader'] = rng.random() < 0.2
+    pr = PRIOS if cfg['queues'][0] == 'prio' else None
+    nprod = rng.choice([1, 2, 3])
+    for i in range(nprod):
+        ops = []
+        for _ in range(rng.choice([2, 3])):
+            if rng.random() < 0.5:
+                op, bid = b.addall(0, rng.choice([4, 6, 8]), pr)
+                ops += [op, {'op': rng.choice(['BatchWait', 'BatchRead']), 'b': bid}]
+            else:
+                ops += [b.add(0, pr) for _ in range(rng.choice([4, 6, 8]))]
+        ops.append({'op': 'WUF'})
+        ops.append({'op': 'Metrics'})
+        b.client('c%d' % (i + 1), ops)
+    p = b.prog(cfg)
+    p['outcome'] = outcomes(rng, b.jobs, p_bad=rng.choice([0.5, 0.9, 1.0]))
+    return p
 
 
 def fam_stop2(rng, pid):
@@ -602,7 +626,7 @@ def life_exhaustive(maxlen, seed, prefix):
     return out
 
 
-FAMILIES = {'stop2': fam_stop2, 'reject': fam_reject, 'multim': fam_multim, 'life': fam_life, 'distbind': fam_distbind, 'bind2': fam_bind2, 'tune': fam_tune, 'adapter': fam_adapter, 'dist': fam_dist, 'basic': fam_basic, 'barrier': fam_barrier, 'ctl': fam_ctl, 'cancel': fam_cancel, 'batch': fam_batch,
+FAMILIES = {'storm': fam_storm, 'stop2': fam_stop2, 'reject': fam_reject, 'multim': fam_multim, 'life': fam_life, 'distbind': fam_distbind, 'bind2': fam_bind2, 'tune': fam_tune, 'adapter': fam_adapter, 'dist': fam_dist, 'basic': fam_basic, 'barrier': fam_barrier, 'ctl': fam_ctl, 'cancel': fam_cancel, 'batch': fam_batch,
             'handle': fam_handle, 'pool': fam_pool, 'multi': fam_multi}
 
 
